@@ -13,7 +13,7 @@ Ops (one answer line each):
 ```
 h <flat> <prog> -> <key>|none     ok
 prog cur|p0|p1|p2 <ctx-prog>      ok          seed program: current program (= ctx id) or fixed Pk::ID
-struct <sid> <const|none> <tys>   ok          must equal row <sid> of `structTable`
+struct <sid> <const|none> <tys> [noslot]  ok  must equal row <sid> of `structTable` (`noslot`: hand-written, no placeholder)
 vals <v>…                         ok          one token per field (decimal ints, hex keys/arrays, true/false, v+v+… nested)
 seeds                             ok <s>,<s>,…            GetSeeds::seeds()
 key <key>                         ok          fresh `Seeded` around an account with that key
@@ -109,7 +109,16 @@ def structTable : List (Nat × Option (List Nat) × List FieldTy) :=
     (48, none, List.replicate 14 key),
     (49, none, List.replicate 15 key),
     (50, some (List.replicate 32 7), [arr 32]),
-    (51, none, [arr 31, bool]) ]
+    (51, none, [arr 31, bool]),
+    -- hand-written `impl GetSeeds`
+    (52, none, [uint 1, arr 0]),
+    (53, none, [uint 8]),
+    (54, some ("TEST_CONST".toUTF8.toList.map (·.toNat)), [key, uint 8]) ]
+
+/-- Hand-written `GetSeeds` impls that return NO bump placeholder (`struct … noslot`): 52 ends in an
+empty REAL seed, 53 in a non-empty one. (54 is hand-written WITH the placeholder, as the trait
+documentation shows.) -/
+def noSlotSids : List Nat := [52, 53]
 
 /-- `P0::ID`, `P1::ID`, `P2::ID` of the harness. -/
 def fixedProg (k : Nat) : List Nat := (List.range 32).map fun i => (k * 37 + i * 11 + 5) % 256
@@ -120,6 +129,7 @@ structure St where
   mode : Option (Option Nat) := none
   ctxProg : List Nat := []
   shape : Option (Option (List Nat) × List FieldTy) := none
+  placeholder : Bool := true
   vals : Option SeedStruct := none
   seeded : Option Seeded := none
 
@@ -249,6 +259,14 @@ def seedProg (st : St) : Option (List Nat) :=
 
 def bad (st : St) : St × String := (st, "bad-op")
 
+def structStep (st : St) (sid c tys : String) (ph : Bool) : St × String :=
+  match sid.toNat?, (if c == "none" then some none else (parseHex c).map some), parseTys tys with
+  | some n, some cst, some ts =>
+    if toString n == sid && structTable.lookup n == some (cst, ts) && (noSlotSids.contains n == !ph) then
+      ({ st with shape := some (cst, ts), placeholder := ph, vals := none, seeded := none }, "ok")
+    else bad st
+  | _, _, _ => bad st
+
 def step (st : St) (toks : List String) : St × String :=
   match toks with
   | ["h", flat, prog, "->", res] =>
@@ -267,19 +285,14 @@ def step (st : St) (toks : List String) : St × String :=
       else match parseProgSel m with
         | some k => ({ st with mode := some (some k), ctxProg := c, seeded := none }, "ok")
         | none => bad st
-  | ["struct", sid, c, tys] =>
-    match sid.toNat?, (if c == "none" then some none else (parseHex c).map some), parseTys tys with
-    | some n, some cst, some ts =>
-      if toString n == sid && structTable.lookup n == some (cst, ts) then
-        ({ st with shape := some (cst, ts), vals := none, seeded := none }, "ok")
-      else bad st
-    | _, _, _ => bad st
+  | ["struct", sid, c, tys] => structStep st sid c tys true
+  | ["struct", sid, c, tys, "noslot"] => structStep st sid c tys false
   | "vals" :: vs =>
     match st.shape with
     | none => bad st
     | some (cst, tys) =>
       match parseVals tys vs with
-      | some fs => ({ st with vals := some ⟨cst, fs⟩ }, "ok")
+      | some fs => ({ st with vals := some ⟨cst, fs, st.placeholder⟩ }, "ok")
       | none => bad st
   | ["seeds"] =>
     match st.vals with
@@ -293,7 +306,7 @@ def step (st : St) (toks : List String) : St × String :=
     match st.seeded, st.vals, seedProg st with
     | some sd, some S, some P =>
       let H := tableH st.table
-      let qs := if sd.recorded.isSome then [] else findQueries H (seeds S) P
+      let qs := if sd.recorded.isSome then [] else findQueries H (dropTrailingEmpty (seeds S)) P
       if complete st.table qs then
         let (r, sd') := validateSeeds H P S sd
         ({ st with seeded := some sd' }, showV r)
@@ -336,7 +349,7 @@ def step (st : St) (toks : List String) : St × String :=
     | some S, some k =>
       let H := tableH st.table
       let P := fixedProg k
-      if complete st.table (findQueries H (seeds S) P) then
+      if complete st.table (findQueries H (dropTrailingEmpty (seeds S)) P) then
         match clientFind H P S with
         | some (a, b) => (st, s!"ok {toHex a} {b}")
         | none => (st, "panic")
@@ -347,7 +360,7 @@ def step (st : St) (toks : List String) : St × String :=
     | some S, some k, some bump =>
       let H := tableH st.table
       let P := fixedProg k
-      if complete st.table (createQueries (seeds S ++ [[bump]]) P) then
+      if complete st.table (createQueries (dropTrailingEmpty (seeds S) ++ [[bump]]) P) then
         match clientCreate H P S bump with
         | .ok a => (st, s!"ok {toHex a}")
         | .error e => (st, showErr e)
